@@ -71,16 +71,26 @@ Proof.
   - eapply bool_decide_eq_false_1. vm_compute. reflexivity.
 Qed.
 
-(* STILL FALSE (2): a service-defaults entry loses its Destination by an update: only the delete path
-   removes the (destination, name) pair *)
+(* a service-defaults entry loses its Destination by an update.  Before /repo 0d0f3e6 only the delete
+   path removed the (destination, name) pair (and the gateway associations of the destination); now
+   the update undoes them too (regression case, replayed by the harness corpus). *)
 Definition ksn_log3 : list (N * cmd) :=
   [ (3, ConfSet "ext" (CDefaults true)); (4, ConfSet "ext" (CDefaults false)) ].
-Lemma kindnames_witness3 :
-  let s := (run ksn_log3 st0).1 in ("destination", "ext") ∈ ksn s /\ recompute_ksn s = ∅.
+Lemma kindnames_dest_repaired_example :
+  ("destination", "ext") ∈ ksn (run (take 1 ksn_log3) st0).1 /\
+  let s := (run ksn_log3 st0).1 in ksn s = ∅ /\ recompute_ksn s = ∅.
 Proof.
-  cbv zeta. split.
-  - eapply bool_decide_eq_true_1. vm_compute. reflexivity.
-  - eapply bool_decide_eq_true_1. vm_compute. reflexivity.
+  cbv zeta. split; [|split]; eapply bool_decide_eq_true_1; vm_compute; reflexivity.
+Qed.
+
+(* the same under a terminating wildcard: the wildcard row of the destination goes with it *)
+Definition gws_dest_log : list (N * cmd) :=
+  [ (3, ConfSet "tgw" (CTermGW ["*"])); (4, ConfSet "ext" (CDefaults true)); (5, ConfSet "ext" (CDefaults false)) ].
+Lemma gateway_dest_repaired_example :
+  is_Some (gws (run (take 2 gws_dest_log) st0).1 !! ("tgw", "ext", 0)) /\
+  let s := (run gws_dest_log st0).1 in gws s !! ("tgw", "ext", 0) = None /\ stored_gws s = recompute_gws s.
+Proof.
+  cbv zeta. split; [|split]; eapply bool_decide_eq_true_1; vm_compute; reflexivity.
 Qed.
 
 (* ---- mesh-topology ---- *)
